@@ -36,14 +36,19 @@ def genC07Cases (tier : String) (seed : Nat) : Array Case := Id.run do
     let (an, r4) := pickA hostileAnn r3
     let (orig, r5) := pickA hostileOrig r4
     let (id, r6) := pickA hostileIds r5
-    let (shape, r7) := below 4 r6
+    let (shape, r7) := below 8 r6
     rng := r7
     let text :=
       match shape with
       | 0 => s!"A({t1}) I(({t2} [AND] {t3}))"
       | 1 => s!"A[{an}]({t1}) D(must) I({t2}) Cac[{an}]" ++ "{" ++ s!"A(b) I({t3})" ++ "}"
       | 2 => s!"A({t1}) " ++ "{" ++ s!"I({t2}) [XOR] I({t3})" ++ "}" ++ " Bdir(x)"
-      | _ => s!"A1({t1}) A1,p[{an}]({t2}) I({t3}) Bdir,p(p)"
+      | 3 => s!"A1({t1}) A1,p[{an}]({t2}) I({t3}) Bdir,p(p)"
+      -- several private / shared properties of one component: every value of a cell is sanitised
+      | 4 => s!"A1,p({t1}) A1,p({t2}) A1(farmer) D(must) I(comply) Bdir,p({t3}) Bdir,p(second) Bdir(rules)"
+      | 5 => s!"A(inspector) I(visits) Cac" ++ "{" ++ s!"A(farmer) I(sells) Bdir1,p({t1}) Bdir1,p({t2}) Bdir1(produce) Bdir,p({t3})" ++ "}"
+      | 6 => s!"Bdir1({t1}) Bdir1,p" ++ "{" ++ s!"A(owner) I({t2})" ++ "}" ++ s!" Bdir1,p({t3}) A(x) I(y)"
+      | _ => s!"E1({t1}) E1,p(({t2} [OR] {t3})) E1,p(third) F(is) P(p) P,p({t2}) P,p({t1})"
     let fmt := if i % 2 = 0 then "csv" else "gs"
     let hdr : Bool := i % 3 != 0
     let po := (i / 2) % 4
